@@ -43,6 +43,7 @@ class SimTcpConn:
         self.s2c = deque()          # [frame(bytes), offset, ready_at_us, nth, op]
         self.dead = None            # None | "fin" | "rst"
         self.client_closed = False
+        self.send_faulted = False
         self.server = None          # endpoint object
         self.cid = net._next_conn_id()
 
@@ -177,6 +178,7 @@ class SimSocket:
             else:
                 f.fired = True
                 sim.fired(f.kind)
+                conn.send_faulted = True        # what the client has put on the stream may end in a torn frame
                 if f.kind == "send_zero":
                     return 0
                 if f.kind == "send_timeout":
